@@ -50,6 +50,118 @@ def corpus():
     return out
 
 
+TAG = re.compile(r'<(/?)([\w:]+)((?:\s+[^<>]*?)?)\s*(/?)>')
+ATTR = re.compile(r'([\w:\-]+)\s*=\s*(?:"([^"]*)"|\'([^\']*)\'|(\{\{[^}]*\}\}[^\s/>,]*)|([^\s/>,]+))')
+
+
+def sample_for(key, raw):
+    """a value for a {{PLACEHOLDER}} / alternatives 'a | b' of a documented example, by the kind of the position"""
+    v = raw.strip()
+    if '{{' in v or v == '' or v == '?':
+        k = key.lower()
+        if k in JID_KEYS or 'jid' in k:
+            return '4915112345678@s.whatsapp.net'
+        if k in ('t', 'timestamp', 'creation', 's_t', 'last', 'expiration'):
+            return '1500000000'
+        if k in ('id',):
+            return '1500000000-7'
+        if k in ('offline', 'count', 'value', 'retry', 'code', 'backoff', 'v', 'index', 'sid', 'size', 'width', 'height', 'duration', 'seconds'):
+            return '1'
+        inner = re.sub(r'[{}]', '', v).strip()
+        if '|' in inner:
+            return inner.split('|')[0].strip() or 'x'
+        return 'x'
+    if '|' in v:
+        return v.split('|')[0].strip()
+    return v
+
+
+def parse_examples(doc):
+    """tolerant reading of the XML-ish examples in a class docstring -> list of (tag, attrs, children, text) trees"""
+    out, stack = [], []
+    pos = 0
+    for m in TAG.finditer(doc):
+        text = doc[pos:m.start()].strip()
+        pos = m.end()
+        if stack and text and not stack[-1][2]:
+            stack[-1][3] = text
+        closing, tag, attrs, selfclose = m.group(1), m.group(2), m.group(3) or '', m.group(4)
+        if closing:
+            while stack:
+                node = stack.pop()
+                done = node[0] == tag
+                if stack:
+                    stack[-1][2].append(node)
+                else:
+                    out.append(node)
+                if done:
+                    break
+            continue
+        a = {}
+        for am in ATTR.finditer(attrs):
+            raw = next(g for g in am.groups()[1:] if g is not None)
+            a[am.group(1)] = sample_for(am.group(1), raw)
+        node = [tag, a, [], None]
+        if selfclose:
+            if stack:
+                stack[-1][2].append(node)
+            else:
+                out.append(node)
+        else:
+            stack.append(node)
+    while stack:
+        node = stack.pop()
+        if stack:
+            stack[-1][2].append(node)
+        else:
+            out.append(node)
+    return out
+
+
+def to_node(t):
+    from yowsup.structs import ProtocolTreeNode
+    tag, attrs, children, text = t
+    data = None
+    if text and not children:
+        tx = text.strip()
+        if tx.upper().startswith('HEX:'):
+            try:
+                data = bytes.fromhex(re.sub(r'[^0-9a-fA-F]', '', tx[4:]))
+            except ValueError:
+                data = b'x'
+        else:
+            data = sample_for('data', tx).encode('latin-1', 'replace')
+    return ProtocolTreeNode(tag, dict(attrs), [to_node(c) for c in children] if children else None, data)
+
+
+def docstring_corpus(seen_classes):
+    """the documented shapes written in the class docstrings (many classes have no fixture): an example is used only if the class
+    parses it and reproduces it - otherwise it is prose, not a shape"""
+    out = []
+    for p in sorted(glob.glob(os.path.join(REPO, 'yowsup', 'layers', '*', 'protocolentities', '*.py'))):
+        if os.path.basename(p).startswith(('test_', '__')):
+            continue
+        modname = os.path.relpath(p, REPO)[:-3].replace('/', '.')
+        try:
+            m = importlib.import_module(modname)
+        except Exception:
+            continue
+        for name in dir(m):
+            c = getattr(m, name)
+            if not (isinstance(c, type) and c.__module__ == modname and c.__doc__ and hasattr(c, 'fromProtocolTreeNode') and hasattr(c, 'toProtocolTreeNode')):
+                continue
+            k = 0
+            for t in parse_examples(c.__doc__):
+                try:
+                    node = to_node(t)
+                    if same(c.fromProtocolTreeNode(node).toProtocolTreeNode(), node):
+                        k += 1
+                        out.append((c, node, '%s(docstring#%d)' % (name, k)))
+                except Exception:
+                    continue
+    return out
+
+
 def discover():
     classes = {}
     for p in sorted(glob.glob(os.path.join(REPO, 'yowsup', 'layers', '*', 'protocolentities', '*.py'))):
@@ -250,6 +362,30 @@ def same(a, b):
     return True
 
 
+def first_difference(a, b, path=''):
+    """where two stanzas differ: 'child/child@attr=value-in-a' (stable name of a violation: the specific input position)"""
+    here = path + a.tag
+    if a.tag != b.tag:
+        return here + ':tag'
+    ka = {k: v for k, v in a.attributes.items() if v is not None}
+    kb = {k: v for k, v in b.attributes.items() if v is not None}
+    for k in sorted(set(ka) | set(kb)):
+        va, vb = ka.get(k), kb.get(k)
+        if va is None or vb is None or str(va) != str(vb):
+            if va is not None and vb is not None and NUM.match(str(va)) and NUM.match(str(vb)) and int(va) == int(vb):
+                continue
+            return '%s@%s=%s' % (here, k, va if (va is None or len(str(va)) < 12) else 'text')
+    if (a.data or None) != (b.data or None):
+        return here + ':data'
+    if len(a.children) != len(b.children):
+        return here + ':children=%d' % len(a.children)
+    for c in a.children:
+        if not any(same(c, d) for d in b.children):
+            cand = [d for d in b.children if d.tag == c.tag]
+            return first_difference(c, cand[0], here + '/') if cand else here + '/' + c.tag + ':missing'
+    return here + ':?'
+
+
 def run(tier, seed, out):
     rng = random.Random(seed)
     res = {'evaluations': 0, 'distinct': 0, 'violations': [], 'samples': [], 'sections': {}}
@@ -264,9 +400,13 @@ def run(tier, seed, out):
         enc, dec = WriteEncoder(td), ReadDecoder(td)
         cases = corpus()
         classes = discover()
+        with_fixture = {c.__name__ for c, _, _ in cases}
+        doc_cases = docstring_corpus(with_fixture)
+        cases = cases + doc_cases
         covered = {c.__name__ for c, _, _ in cases}
-        res['samples'].append({'entity_classes_found': len(classes), 'with_fixture': len(covered & set(classes)),
-                               'without_fixture': sorted(set(classes) - covered)[:80]})
+        res['samples'].append({'entity_classes_found': len(classes), 'with_fixture': len(with_fixture & set(classes)),
+                               'docstring_shapes_used': len(doc_cases), 'classes_covered': len(covered & set(classes)),
+                               'not_covered': sorted(set(classes) - covered)[:80]})
         reps = 12 if tier == 'quick' else 300
 
         def bad(cls, what, **kw):
@@ -298,10 +438,10 @@ def run(tier, seed, out):
                     continue
                 if not same(back, node):
                     sec['bad'] += 1
-                    bad('roundtrip:%s:differs' % ecls.__name__, 'stanza -> entity -> stanza differs', stanza=node_text(node), got=node_text(back),
-                        documented_example_roundtrips=base_ok)
+                    bad('roundtrip:%s:differs:%s' % (ecls.__name__, first_difference(node, back)), 'stanza -> entity -> stanza differs',
+                        stanza=node_text(node), got=node_text(back), documented_example_roundtrips=base_ok)
                     continue
-                if not sendable:
+                if not sendable or any(v is None for v in back.attributes.values()):
                     continue            # only stanzas that are sent meet the codec from this side (name heuristic, reported in the evidence)
                 try:
                     wire = enc.protocolTreeNodeToBytes(back)
